@@ -80,9 +80,14 @@ func runRace(e *ev.Env) {
 				g.viol("deadlock|without-panic", "workers did not finish within 3 s after the stop signal", nil)
 			}
 			e.Stat("race-requests", nreq.Load())
+			e.Stat("race-cases-ended-by-panic", 1)
+			if nreq.Load() >= 100 {
+				e.Nontrivial("race", c.ID, cf.String())
+			}
 			return
 		}
 		e.Stat("race-requests", nreq.Load())
+		e.Stat("race-cases-ran-full-duration", 1)
 		e.Nontrivial("race", c.ID, cf.String())
 		g.mu.Lock()
 		g.trace = g.trace[:0] // keep the post-quiescence part as the witness
